@@ -75,6 +75,10 @@ THEOREMS = [
     "JanetModel.Props.C11.phys_history_safe",
     "JanetModel.Props.C11.token_scratch_nonempty",
     "JanetModel.Props.C11.phys_machine_source_ops",
+    "JanetModel.Props.C11.phys_state_query_safe",
+    "JanetModel.Props.C11.phys_clone_safe",
+    "JanetModel.Props.C11.phys_insert_safe",
+    "JanetModel.Props.C11.phys_api_history_safe",
     "JanetModel.Props.C11.stack_push_in_bounds",
     "JanetModel.Props.C11.capacity_invariant",
     "JanetModel.Props.C11.consume_capacity",
